@@ -504,5 +504,37 @@ class FuncGen(ProgGen):
             else:
                 prog.append(['assign', r.choice(['gs'] + self.vars), self.num(scope)])
             prog.append(LOG('g', *[V(v) for v in self.vars]))
+        if r.random() < 0.3:
+            # a function that MUTATES its own rest array: every call gets a fresh array, also through systemPartial called
+            # repeatedly without extra arguments, and the caller's values are never affected
+            k = r.randint(1, 3)
+            mut = r.choice([['expr', C('arrayPush', V('rest'), N(9))], ['expr', C('arrayPop', V('rest'))], ['expr', C('arraySet', V('rest'), N(0), S('m'))],
+                            ['expr', C('arrayShift', V('rest'))]])
+            prog.append(['func', 'accf', ['rest'], True, [mut, LOG('in_accf', V('rest')), ['return', C('arrayLength', V('rest'))]]])
+            prog.append(['assign', 'pacc', C('systemPartial', V('accf'), *[N(i + 1) for i in range(k)])])
+            for _ in range(r.randint(2, 3)):
+                prog.append(LOG('pacc', C('pacc', *[N(7)] * r.choice([0, 0, 1]))))
+            prog.append(LOG('direct', C('accf', N(1), N(2)), C('accf', N(1), N(2))))
         prog.append(LOG('end', *[V(v) for v in self.vars + ['gs']]))
         return prog
+
+
+def strip_logs(stmts):
+    """The same program without its systemLog statements: blocks may become EMPTY (a loop label directly followed by its
+    loop-back jump, an if with empty branches)."""
+    out = []
+    for st in stmts:
+        t = st[0]
+        if t == 'expr' and 'function' in st[1] and st[1]['function']['name'] == 'systemLog':
+            continue
+        if t == 'if':
+            out.append(['if', [[c, strip_logs(b)] for c, b in st[1]], strip_logs(st[2]) if st[2] is not None else None])
+        elif t == 'while':
+            out.append(['while', st[1], strip_logs(st[2])])
+        elif t == 'for':
+            out.append(['for', st[1], st[2], st[3], strip_logs(st[4])])
+        elif t == 'func':
+            out.append(['func', st[1], st[2], st[3], strip_logs(st[4])])
+        else:
+            out.append(st)
+    return out
